@@ -27,4 +27,9 @@ def regen():
         write_if_changed(d / "CoreDefs.v", coredefs.render_core_defs())
     except Exception as e:
         errs.append(("CoreDefs.v", f"{type(e).__name__}: {e}"))
+    try:  # C04/C15: how add_fields turns the evaluated length expression into Field.length (int() cast, minimum)
+        from .translate import emit_guards
+        write_if_changed(d / "EmitGuards.v", emit_guards.render())
+    except Exception as e:
+        errs.append(("EmitGuards.v", f"{type(e).__name__}: {e}"))
     return errs
